@@ -591,13 +591,18 @@ def grid_stage(run, jsbin, findings, nprogs):
         progs.append((t, fs, asy))
         feat.update(fs)
     run.cov["generator_features"] = dict(feat)
-    base = js_many(jsbin, [("jobs=1", t) for t, _, _ in progs], chunk=10)
+    # the reference run gets a loop limit no generated program can reach (trip counts <= 4): a program that boa turns into
+    # a runaway (a miscompiled loop, not a C08 matter) then ends quickly and is discarded and counted instead of timing out
+    base = js_many(jsbin, [("loop=100000 jobs=1", t) for t, _, _ in progs], chunk=10)
     Ls = [0, 1, 2, 7, 100]
     Rs = [1, 2, 3, 16]
     Ss = [1, 8, 16, 32, 64, 1024]
     jobs, meta = [], []
+    base_discarded = 0
     for k, (t, fs, asy) in enumerate(progs):
-        if base[k] is None or base[k][0] != "ok":
+        if base[k] is None or base[k][0] != "ok" or limit_of(base[k][2])[0] is not None:
+            base_discarded += 1
+            run.notes.append({"reference_run_discarded": {"completion": None if base[k] is None else base[k][2], "program_tail": t[-300:]}})
             continue
         grid = [("loop", L, "loop=%d" % L) for L in Ls] + [("rec", R, "rec=%d" % R) for R in Rs]
         ssel = Ss if not run.quick else [run.rng.choice(Ss), run.rng.choice(Ss)]
@@ -668,6 +673,7 @@ def grid_stage(run, jsbin, findings, nprogs):
                 findings.append({"kind": "counterexample", "class": "grid:not-monotone", "input": progs[k][0], "limit_kind": kind, "verdicts": vs,
                                  "expected": "limit error at value v implies limit error at every smaller value"})
                 break
+    stats["reference_runs_discarded"] = base_discarded
     stats["programs"] = len(progs)
     stats["programs_with_async"] = sum(1 for p in progs if p[2])
     run.cov["grid"] = dict(stats)
@@ -751,7 +757,7 @@ def main():
         cfg_stage(run, jsbin, modelbin, cfg_programs, findings)
         forms_stage(run, jsbin, modelbin, findings)
         depth_stage(run, jsbin, modelbin, findings)
-    tjobs = [("jobs=1", t) for t in grid_programs[:(8 if run.quick else 40)]]
+    tjobs = [("loop=100000 jobs=1", t) for t in grid_programs[:(8 if run.quick else 40)]]
     tjobs += [("loop=%d jobs=1" % run.rng.choice([2, 7]), t) for t in grid_programs[:(4 if run.quick else 20)]]
     tjobs += [("rec=%d" % run.rng.choice([7, 16]), ROUTES.wrap_rec(tpl)) for (_, tpl, tag) in ROUTES.ROUTES[run.rng.randrange(5)::(9 if run.quick else 2)] if tag == "sync"]
     tjobs += [("loop=3", ROUTES.wrap_loop(ROUTES.ROUTES[0][1], b[1])) for b in ROUTES.LOOP_BODIES[::(3 if run.quick else 1)]]
